@@ -8,3 +8,4 @@ EXPLANATION = ("Interface part: bounded runtime contracts under real TensorFlow 
 ASSUMPTIONS = ["A-AD: TensorFlow's GradientTape / ForwardAccumulator return the derivative of the traced computation"]
 
 from vt.contracts import iface_nll  # noqa: F401,E402
+from vt.contracts import derivs  # noqa: F401,E402
